@@ -556,7 +556,9 @@ func (r *RTPReceiver) readRTP(b []byte, reader *TrackRemote) (n int, a intercept
 		return 0, nil, io.EOF
 	}
 
-	if t := r.streamsForTrack(reader); t != nil {
+	// A track that was configured but whose streams were never bound (a second SSRC in the media section
+	// of a started receiver) has no reader.
+	if t := r.streamsForTrack(reader); t != nil && t.rtpInterceptor != nil {
 		return t.rtpInterceptor.Read(b, a)
 	}
 
